@@ -67,6 +67,8 @@ class BlobExchangeClientProtocol(asyncio.Protocol):
             blob_response = response.get_blob_response()
             if blob_response and not blob_response.error and blob_response.blob_hash == self.blob.blob_hash:
                 # set the expected length for the incoming blob if we didn't know it
+                if self.blob.get_length() is None:
+                    self.blob.length_from_peer = True
                 self.blob.set_length(blob_response.length)
                 self._expecting_blob_data = True
             elif blob_response and not blob_response.error and self.blob.blob_hash != blob_response.blob_hash:
@@ -189,7 +191,8 @@ class BlobExchangeClientProtocol(asyncio.Protocol):
         blob_hash = blob.blob_hash
         if blob.get_is_verified() or not blob.is_writeable():
             return 0, self
-        length_was_unknown = blob.get_length() is None
+        # also unknown if all we have is what another peer claimed: requests started after that response fail too
+        length_was_unknown = blob.get_length() is None or blob.length_from_peer
         try:
             self._blob_bytes_received = 0
             self._expecting_blob_data = False
@@ -218,6 +221,7 @@ class BlobExchangeClientProtocol(asyncio.Protocol):
                 # the length was only known from this peer's response and the transfer failed: forget it, otherwise
                 # a peer that lied about it makes every later (honest) response look like a length mismatch
                 blob.length = None
+                blob.length_from_peer = False
 
     def connection_made(self, transport: asyncio.Transport):
         addr = transport.get_extra_info('peername')
